@@ -11,20 +11,7 @@
 #include "EbMalloc.h"
 #if defined(U16_SRM)
 #ifdef U16_CALLOC_MODEL
-/* trusted library model (measured: the built-in calloc gives a pointer array whose element count is read through a
- * pointer an UNBOUNDED byte-array object, and the array post-processing then exhausts 30 GB): same semantics, but the
- * small pointer-array sizes are case-split so that each branch allocates an object of constant size */
-void *calloc(size_t n, size_t s) {
-    size_t t = n * s;
-    __CPROVER_assert(s == 0 || t / s == n, "calloc: element count times size does not overflow");
-    if (t == 8) { uint64_t *q = malloc(8); if (q) q[0] = 0; return q; }
-    if (t == 16) { uint64_t *q = malloc(16); if (q) { q[0] = 0; q[1] = 0; } return q; }
-    if (t == 24) { uint64_t *q = malloc(24); if (q) { q[0] = 0; q[1] = 0; q[2] = 0; } return q; }
-    if (t == 32) { uint64_t *q = malloc(32); if (q) { q[0] = 0; q[1] = 0; q[2] = 0; q[3] = 0; } return q; }
-    void *p = malloc(t);
-    if (p) memset(p, 0, t);
-    return p;
-}
+#include "calloc_small.h"
 #endif
 #include "EbSystemResourceManager.h"
 #include "Source/Lib/Common/Codec/EbSystemResourceManager.c"
